@@ -95,10 +95,9 @@ def c16a(ctx):
         defs = Defs(fn.node)
 
         def lim(a):
+            # closed form of the limit (it may be held in a local, unpacked from the grid size or indexed)
             r = tab.atom_objs[a].right
-            while isinstance(r, ast.Name) and defs.single(r.id) and defs.single(r.id)[1] is None:
-                r = defs.single(r.id)[0]
-            return unparse(r)
+            return fn.ctext(r, at=fn.cfg.node_of[id(inner[0])])
         lims_ok = lim(axl[0]) == 'grid_size[0]' and lim(ayl[0]) == 'grid_size[1]'
         for asg, out, _ in tab.assignments():
             want = 'None' if (asg[ax0[0]] or asg[ay0[0]] or not asg[axl[0]] or not asg[ayl[0]]) else 'coord'
